@@ -293,11 +293,12 @@ def check_cost(ctx: common.Ctx, fixed: bool):
         except Exception as e:
             ctx.fail('tie', 'cost-walk-crashed', f'{type(e).__name__}: {e} on {text!r} {ops}')
             continue
-        kinds0 = tuple(sorted(c[0] for c in init['comps']))
+        al = [c[0][1:] for c in init['comps'] if c[0] in ('KCompound', 'KAmount', 'KNumber', 'KCurrency')]
         ctx.case({'cost': text.strip(), 'ops': fmt_ops(ops[:6])},
                  nontrivial=any(s['res'] for s in steps) or any(s['brace'] != init['brace'] for s in steps)
                  or any([c[0] for c in s['comps']] != [c[0] for c in init['comps']] for s in steps))
-        ctx.dist('cost_init=' + init['brace'] + ':' + '+'.join(k[1:] for k in kinds0))
+        ctx.dist('cost_init=' + init['brace'] + ':' + ('+'.join(al) or 'none') + (':listed' if listed else ':odd'))
+        ctx.dist(f'cost_init_other_components={len(init["comps"]) - len(al)}')
         for (p, vc), s in zip(ops, steps):
             ctx.dist(f'cost_op={p}:{"None" if vc is None else "value"}')
             if s['res']:
@@ -320,7 +321,7 @@ def check_cost(ctx: common.Ctx, fixed: bool):
             ctx.count('failures_monitor_suppressed_duplicates')
         cases.append(coq_ccase(fixed, listed, init, ops, steps))
         metas.append((text, listed, ops))
-    bad = ctx.run_coq_cases('cost', PREAMBLE, 'ccase', 'check_ccase', cases, chunk=120)
+    bad = ctx.run_coq_cases('cost', PREAMBLE, 'ccase', 'check_ccase', cases, chunk=80)
     ctx.count('traces_validated_against_impl', len(cases) - len(bad))
     for i in bad[:2]:
         text, listed, ops = metas[i]
